@@ -27,7 +27,7 @@ ASSUMPTIONS = OC.STUBS + [
     "the raw log (Optimize._log) is inspected instead of Optimize.log(), which only copies it into a Table",
 ]
 BOUNDS = {
-    "quick": "1 knob x 1 target: {step(1), step(1, take_best=False), solve()} followed by {reload(i), tag(), clear_log()}, and {reload, tag, clear_log} followed by any of the six calls; "
+    "quick": "2 knobs x 1 target: step() on a matched point; disable(vary=1); knob 1 changed by hand; step(). 1 knob x 1 target: {step(1), step(1, take_best=False), solve()} followed by {reload(i), tag(), clear_log()}, and {reload, tag, clear_log} followed by any of the six calls; "
              "1 knob x 2 targets with target 1 initially disabled and the start point assumed to match target 0: solve()|step(1); enable(target=1); step(1); n_bisections=0",
     "thorough": "2x1 sequences of 2 calls, 1x1 sequences of 3 calls, step(2), n_bisections=1",
 }
@@ -81,6 +81,16 @@ def do_call(ex, P, opt, name, info):
         opt.enable(target=1)
     elif name == "disable_t1":
         opt.disable(target=1)
+    elif name == "disable_v1":
+        opt.disable(vary=1)
+    elif name == "enable_v1":
+        opt.enable(vary=1)
+    elif name == "hand_k1":
+        # the user changes a (disabled) knob directly in its container
+        nv = ex.real(ex.name("hand"))
+        ex.assume(tobool(P.lims[1][0] <= nv))
+        ex.assume(tobool(nv <= P.lims[1][1]))
+        P.d["k1"] = nv
 
 
 def run_case(ex, case):
@@ -196,6 +206,9 @@ def cases(tier):
         c = {"nk": 1, "nt": 2, "init_disable_t1": True, "assume_matched_t0": True,
              "seq": [first, "enable_t1", "step"], "tag": f"1x2:{first}"}
         out += driver.split_case(mod, c, 15)
+    # a row must be truthful also when the cached solver state is stale w.r.t. a knob changed while disabled
+    out += driver.split_case(mod, {"nk": 2, "nt": 1, "assume_matched_t0": True,
+                                   "seq": ["step", "disable_v1", "hand_k1", "step"], "tag": "2x1:stale"}, 12)
     if tier != "quick":
         for a in ("step", "solve"):
             out += driver.split_case(mod, {"nk": 1, "nt": 1, "seq": [a, "*"], "second": ["step", "solve", "step_nobest"], "tag": "1x1:heavy"}, 14)
